@@ -3,6 +3,7 @@
 package nextroute
 
 import (
+	"context"
 	"fmt"
 	"slices"
 )
@@ -133,18 +134,52 @@ func (p *solutionPlanUnitsUnitImpl) UnPlan() (bool, error) {
 	solution.plannedPlanUnits.remove(p)
 	solution.unPlannedPlanUnits.add(p)
 
+	// A conjunction of plan units is un-planned as a whole or not at all: if
+	// one of its units fails to unplan, the units that were un-planned before
+	// are planned again where they were, last one first.
+	type undo struct {
+		planUnit      SolutionPlanStopsUnit
+		stopPositions StopPositions
+	}
+	undos := make([]undo, 0, len(p.solutionPlanUnits))
 	for _, solutionPlanUnit := range p.solutionPlanUnits {
-		if solutionPlanUnit.IsPlanned() {
-			// TODO: what if one of a conjunction of plan units fails to unplan?
-			success, err := solutionPlanUnit.UnPlan()
-			if err != nil {
-				success = false
+		if !solutionPlanUnit.IsPlanned() {
+			continue
+		}
+		planned := solutionPlanUnit.PlannedPlanStopsUnits()
+		positions := make([]StopPositions, len(planned))
+		for i, planStopsUnit := range planned {
+			positions[i] = planStopsUnit.StopPositions()
+		}
+		success, err := solutionPlanUnit.UnPlan()
+		if err != nil {
+			success = false
+		}
+		if success {
+			for i, planStopsUnit := range planned {
+				undos = append(undos, undo{planUnit: planStopsUnit, stopPositions: positions[i]})
 			}
-			if !success {
-				solution.plannedPlanUnits.add(p)
-				solution.unPlannedPlanUnits.remove(p)
+			continue
+		}
+		solution.plannedPlanUnits.add(p)
+		solution.unPlannedPlanUnits.remove(p)
+		if !p.modelPlanUnitsUnit.PlanAll() {
+			continue
+		}
+		for i := len(undos) - 1; i >= 0; i-- {
+			move, moveErr := newMoveStops(undos[i].planUnit, undos[i].stopPositions, false)
+			if moveErr != nil {
+				return false, moveErr
+			}
+			replanned, moveErr := move.Execute(context.Background())
+			if moveErr != nil {
+				return false, moveErr
+			}
+			if !replanned {
+				return false, fmt.Errorf("failed undoing failed unplan of %v", p)
 			}
 		}
+		return false, err
 	}
 	return true, nil
 }
